@@ -36,7 +36,7 @@ N = int(sys.argv[2])
 gen = random.Random("c14-%d" % seed)     # the harness's own PRNG (an instance: module state untouched)
 viol = []
 stats = {}
-TESTS = 4096                              # upper bound on the number of frequency tests of one run
+TESTS = 16384                             # upper bound on the number of frequency tests of one run
 EPS = math.sqrt((math.log(2) * (60 + math.log2(TESTS)) + math.log(2)) / (2 * N))   # Hoeffding: total failure < 2^-60
 
 
@@ -76,6 +76,24 @@ def bit_freq_check(name, rows):
             f = sum((r[pos] >> bit) & 1 for r in rows) / n
             if abs(f - 0.5) > EPS * math.sqrt(N / n):
                 viol.append({"what": "%s: bit %d of byte %d has frequency %.3f over %d calls" % (name, bit, pos, f, n)})
+
+
+def byte_stat_check(name, rows):
+    """pooled byte statistics of a group of random strings: byte parity balance and the frequency of every value of
+    the high and of the low nibble (catches value sets that keep every single bit balanced, e.g. parity-adjusted bytes)"""
+    data = b"".join(rows)
+    n = len(data)
+    if n < N // 4:
+        return
+    eps = EPS * math.sqrt(N / n)
+    even = sum(1 for b in data if bin(b).count("1") % 2 == 0) / n
+    if abs(even - 0.5) > eps:
+        viol.append({"what": "%s: fraction of even-parity bytes is %.3f over %d bytes (expected 0.5 +- %.3f)" % (name, even, n, eps)})
+    for shift, part in ((4, "high"), (0, "low")):
+        for val in range(16):
+            f = sum(1 for b in data if (b >> shift) & 15 == val) / n
+            if abs(f - 1 / 16) > eps:
+                viol.append({"what": "%s: %s nibble value %X has frequency %.3f over %d bytes (expected 0.0625 +- %.3f)" % (name, part, val, f, n, eps)})
 
 
 def call_sequences():
@@ -124,6 +142,7 @@ for _ in range(N):
     if o.nibbles(f)[:16] != o.pin_field4_nibbles(pin, b"")[:16]:
         viol.append({"what": "format 4 PIN field: deterministic half wrong"})
 bit_freq_check("format 4 PIN field tail", rows)
+byte_stat_check("format 4 PIN field tail", rows)
 stats["format4_field"] = N
 rows = []
 for _ in range(N // 2):
@@ -145,6 +164,8 @@ for v in "ABCD":
         kbpk = gen.randbytes(16)
         kl = gen.choice([8, 16, 24, 6, 14, 22, 30])
         key = gen.randbytes(kl)
+        if gen.random() < 0.5:      # a real DES key: every byte odd parity
+            key = bytes(b if bin(b).count("1") % 2 else b ^ 1 for b in key)
         mask = gen.choice([None, None, 32, 22, 30, 14, 46])
         alg = gen.choice("TTAHR")        # H, R: no default mask, so 2 + len(key) can be block-aligned
         kb, drawn, same = monitored(tr31.wrap, kbpk, v + "0000P0" + alg + "E00N0000", key, mask)
@@ -158,12 +179,17 @@ for v in "ABCD":
         # data was already block-aligned (a full extra block of padding) and the ordinary case
         m = max(kl, {"T": 24, "D": 24, "A": 32}.get(alg, kl) if mask is None else mask)
         aligned = (2 + m) % bs == 0
+        parity_key = all(bin(b).count("1") % 2 for b in key) and len(key) > 0
         groups.setdefault(("aligned" if aligned else "ordinary", "head"), []).append(pad[:1])
+        extra = m - kl
+        if extra >= 4:
+            groups.setdefault(("des-parity key" if parity_key else "random key", "alg " + alg, "masking bytes"), []).append(pad[:4])
         if len(pad) >= bs:
             groups.setdefault(("aligned" if aligned else "ordinary", "tail%d" % bs), []).append(pad[-bs:])
         groups.setdefault(("all", "tail1"), []).append(pad[-1:])
-    for (cls, part), rows in groups.items():
-        bit_freq_check("TR-31 %s key padding (%s, %s)" % (v, cls, part), rows)
+    for gk, rows in groups.items():
+        bit_freq_check("TR-31 %s key padding %s" % (v, gk), rows)
+        byte_stat_check("TR-31 %s key padding %s" % (v, gk), rows)
     stats["tr31_" + v] = N
 # ---------------------------------------------------------------- freshness of sequences
 for name, thunk in call_sequences():
